@@ -33,16 +33,16 @@ type printSite struct {
 // closurePrint: if fn (an anonymous function) prints string(<its parameter k>) with fmt.Print/Println, returns k and
 // the free variable (if any) whose truth guards that print.
 func (c *Ctx) closurePrint(fn *ssa.Function) (k int, guard *ssa.FreeVar, ok bool) {
-	for _, s := range c.Calls(func(n string) bool { return n == "fmt.Println" || n == "fmt.Print" }) {
+	for _, s := range c.Calls(isStdoutPrintCallee) {
 		if s.Fn != fn {
 			continue
 		}
-		a := c.varargAt(s.Args()[0], 0)
-		if a == nil || a.Kind != "convert" || a.Name != "string" || a.Args[0].Kind != "param" {
+		pv, _, isP := c.stdoutPrint(s)
+		if !isP || pv.Kind != "param" {
 			continue
 		}
 		for i, p := range fn.Params {
-			if p.Name() == a.Args[0].Name {
+			if p.Name() == pv.Name {
 				k = i
 				ok = true
 			}
@@ -82,15 +82,15 @@ func (c *Ctx) generateFacts(rule string) *genFacts {
 		}
 	}
 	// print sites
-	for _, s := range c.Calls(func(n string) bool { return n == "fmt.Println" || n == "fmt.Print" }) {
+	for _, s := range c.Calls(isStdoutPrintCallee) {
 		if s.Fn != g.fn {
 			continue
 		}
-		a := c.varargAt(s.Args()[0], 0)
-		if a == nil || a.Kind != "convert" || a.Name != "string" {
+		pv, _, isP := c.stdoutPrint(s)
+		if !isP {
 			continue
 		}
-		g.prints = append(g.prints, printSite{instr: s.Instr, val: a.Args[0]})
+		g.prints = append(g.prints, printSite{instr: s.Instr, val: pv})
 	}
 	for _, b := range g.fn.Blocks {
 		for _, in := range b.Instrs {
@@ -344,6 +344,7 @@ func C15(c *Ctx) {
 		}
 	}
 	c.overlayRule("C15-6") // the loader flags: nothing that lets the go command write (BuildFlags)
+	c.logPathRule("C15-7")
 }
 
 // inLoop reports whether block b lies on a cycle of its function's CFG.
